@@ -36,6 +36,21 @@ fn main() {
         }
         return;
     }
+    if args[0] == "fuzzjudge" {
+        // developer aid: vcheck fuzzjudge <PROPERTY> <libFuzzer artifact of target `wide`> [repeat]
+        vcore::preflight::quiet_panics();
+        let judge = vcore::engine::wide_judge(&args[1].to_uppercase()).expect("property with an in-process judge");
+        let data = std::fs::read(&args[2]).expect("read artifact");
+        let choices = vcore::engine::choices_from_bytes(&data);
+        let n: usize = args.get(3).and_then(|s| s.parse().ok()).unwrap_or(1);
+        for i in 0..n {
+            match judge(&sut, &choices, &mut vcore::engine::Stats::new()) {
+                Ok(()) => println!("run {i}: ok"),
+                Err(m) => println!("run {i}: VIOLATION {}", m.chars().take(600).collect::<String>()),
+            }
+        }
+        return;
+    }
     if args[0] == "selftest" {
         vcore::selftest::run(&sut, &args[1..]);
     }
